@@ -184,7 +184,7 @@ def gen_history(rng, tier='quick', p_unresolvable=0.0):
                     op['cut'] = ['kill_at', 'clt_del_request:done']
                     prefer_start = True
                 else:
-                    op['cut'] = [rng.choice(['kill', 'error', 'error2']), round(rng.random(), 3)]
+                    op['cut'] = [rng.choice(['kill', 'error', 'error2', 'ioerror']), round(rng.random(), 3)]
             else:
                 op['repeat'] = rng.choice([0, 0, 1, 1, 2])
                 stage[i] = 'finished'
